@@ -10,27 +10,9 @@
 -/
 import UnytModel.ParseGuard
 import UnytProofs.Lemmas.C20Total
-import UnytProofs.Lemmas.C20Mild
 
 namespace Unyt.C20
-open Unyt Parse C20T C20W
-
-/-- **no other exception escapes** (full strength since the fixes C20-02 / C20-03): for every string
-    whatsoever the string path answers with a unit, with `UnitParseError`, or — the two outcomes
-    that are not exceptions — does not come back (`hang`, the remaining finding) or is outside the
-    exact model (`unmodelled`).  It never answers `TypeError` and never a decoding error. -/
-theorem no_other_exception (s : String) :
-    parseUnit s ≠ .error .typeError ∧ parseUnit s ≠ .error .decodeError := by
-  have h := parseChars_mild s.toList
-  constructor
-  · intro he
-    rcases h _ he with h | h | h <;> cases h
-  · intro he
-    rcases h _ he with h | h | h <;> cases h
-
-/-- the same for any list of characters (what `Unit(bytes)` passes on after decoding) -/
-theorem no_other_exception_chars (cs : List Char) (c : PErr) (h : parseChars cs = .error c) :
-    c = .unitParseError ∨ c = .unmodelled ∨ c = .hang := parseChars_mild cs c h
+open Unyt Parse C20T
 
 /-- **guarded totality.** -/
 theorem parse_total_partial (s : String) (p : PExpr) (hp : syntaxOf s = some p) (hs : simple p = true) :
@@ -41,7 +23,10 @@ theorem parse_total_partial (s : String) (p : PExpr) (hp : syntaxOf s = some p) 
   split at hp
   · cases hp
   · next ts hts =>
-    simp only [hp]
+    by_cases hb : hasBinarySign ts = true
+    · simp only [hb, if_true] at hp; cases hp
+    simp only [hb, Bool.false_eq_true, if_false] at hp
+    simp only [hb, Bool.false_eq_true, if_false, hp]
     have hb := evalP_benign p hs
     cases he : evalP p with
     | error c =>
